@@ -524,3 +524,95 @@ Section IsoProofs.
         split; [destruct (t =? u); lia|]. split; [exact Hp | exact Hb].
   Qed.
 End IsoProofs.
+
+(* ---------- the memoize cache never deadlocks ---------- *)
+Lemma all_or_witness (l : list mthread) :
+  (forall t th, nth_opt t l = Some th -> m_pc th = 3) \/
+  exists t th, nth_opt t l = Some th /\ m_pc th <> 3.
+Proof.
+  induction l as [|x r IH].
+  - left. intros t th H. destruct t; discriminate H.
+  - destruct (Nat.eq_dec (m_pc x) 3) as [E|E].
+    + destruct IH as [IH|(t & th & Ht & Hp)].
+      * left. intros t th H. destruct t as [|t]; cbn in H; [inversion H; subst; exact E|eapply IH; exact H].
+      * right. exists (S t), th. split; [exact Ht|exact Hp].
+    + right. exists 0, x. split; [reflexivity|exact E].
+Qed.
+
+(* In every reachable state either every use has returned or some use can take a step: whatever the
+   schedule did so far, the mutex is held only by a use that can go on, and nobody waits for anything
+   else. *)
+Theorem memo_no_deadlock : forall keys sched,
+  let s := run mstate mstep sched (minit keys) in
+  (forall t th, nth_opt t (ms_threads s) = Some th -> m_pc th = 3) \/ exists t s', mstep t s = Some s'.
+Proof.
+  intros keys sched s.
+  assert (Hinv : Minv s) by (apply run_inv; [intros; eapply mstep_inv; eauto | apply minit_inv]).
+  destruct Hinv as [_ _ _ HD _].
+  destruct (ms_lock s) as [h|] eqn:El.
+  - right. destruct HD as (th & Hth & Hpc & _ & _ & H2 & _). exists h.
+    unfold mstep. rewrite Hth. destruct Hpc as [Hpc|Hpc]; rewrite Hpc.
+    + eexists. reflexivity.
+    + destruct (H2 Hpc) as (r & Hr & _). rewrite Hr. eexists. reflexivity.
+  - destruct HD as [Hidle _].
+    destruct (all_or_witness (ms_threads s)) as [Hall|(t & th & Ht & Hp)]; [left; exact Hall|].
+    right. exists t. unfold mstep. rewrite Ht.
+    destruct (Hidle t th Ht) as [H0|H3]; [|contradiction]. rewrite H0, El.
+    destruct (alookup (m_key th) (ms_cache s)); eexists; reflexivity.
+Qed.
+
+(* ---------- inputs that cannot be map keys: one call per use ---------- *)
+Record Uinv (s : ustate) : Prop := {
+  ui_nodup : NoDup (map fst (us_calls s));
+  ui_called : forall t r, In (t, r) (us_calls s) ->
+              exists th, nth_opt t (us_threads s) = Some th /\ u_pc th = 3 /\ u_res th = Some r;
+  ui_done : forall t th, nth_opt t (us_threads s) = Some th -> u_pc th = 3 ->
+            exists r, u_res th = Some r /\ In (t, r) (us_calls s);
+  ui_pcs : forall t th, nth_opt t (us_threads s) = Some th -> u_pc th = 0 \/ u_pc th = 3
+}.
+
+Lemma uinit_inv n : Uinv (uinit n).
+Proof.
+  split; cbn.
+  - constructor.
+  - intros t r [].
+  - intros t th H Hp. apply nth_opt_repeat in H. subst th. discriminate Hp.
+  - intros t th H. apply nth_opt_repeat in H. subst th. left. reflexivity.
+Qed.
+
+Lemma ustep_inv t s s' : Uinv s -> ustep t s = Some s' -> Uinv s'.
+Proof.
+  intros [HA HB HC HD] H. unfold ustep in H.
+  destruct (nth_opt t (us_threads s)) as [[pc res]|] eqn:Et; [|discriminate].
+  destruct pc; [|discriminate]. inversion H; subst; clear H. split; cbn.
+  - constructor; [|exact HA]. intros Hin. apply in_map_iff in Hin. destruct Hin as [[t' r] [E Hin]]. cbn in E. subst t'.
+    destruct (HB _ _ Hin) as (th & Hth & Hp & _). rewrite Et in Hth. inversion Hth; subst. discriminate Hp.
+  - intros t' r [E|Hin].
+    + inversion E; subst. exists (mkUt 3 (Some (us_next s))). rewrite nth_opt_upd, Nat.eqb_refl, Et. repeat split.
+    + destruct (HB _ _ Hin) as (th & Hth & Hp & Hr). exists th. rewrite nth_opt_upd.
+      destruct (t =? t') eqn:E; [|repeat split; assumption].
+      apply Nat.eqb_eq in E. subst t'. rewrite Et in Hth. inversion Hth; subst. discriminate Hp.
+  - intros t' th Hth Hp. rewrite nth_opt_upd in Hth. destruct (t =? t') eqn:E.
+    + apply Nat.eqb_eq in E. subst t'. rewrite Et in Hth. cbn in Hth. inversion Hth; subst.
+      exists (us_next s). split; [reflexivity|left; reflexivity].
+    + destruct (HC _ _ Hth Hp) as (r & Hr & Hin). exists r. split; [exact Hr|right; exact Hin].
+  - intros t' th Hth. rewrite nth_opt_upd in Hth. destruct (t =? t') eqn:E.
+    + apply Nat.eqb_eq in E. subst t'. rewrite Et in Hth. cbn in Hth. inversion Hth; subst. right. reflexivity.
+    + eapply HD. exact Hth.
+Qed.
+
+(* every use calls the function itself, exactly once, and observes the result of its own call; a use
+   that has not returned can always take its step (nothing to wait for, nothing that fails) *)
+Theorem unkeyable_one_call_per_use : forall n sched,
+  let s := run ustate ustep sched (uinit n) in
+  NoDup (map fst (us_calls s)) /\
+  (forall t th, nth_opt t (us_threads s) = Some th -> u_pc th = 3 ->
+     exists r, u_res th = Some r /\ In (t, r) (us_calls s)) /\
+  (forall t th, nth_opt t (us_threads s) = Some th -> u_pc th <> 3 -> exists s', ustep t s = Some s').
+Proof.
+  intros n sched s.
+  assert (Hinv : Uinv s) by (apply run_inv; [intros; eapply ustep_inv; eauto | apply uinit_inv]).
+  destruct Hinv as [HA HB HC HD]. split; [exact HA|]. split; [exact HC|].
+  intros t th Hth Hp. destruct (HD _ _ Hth) as [H0|H3]; [|contradiction].
+  unfold ustep. rewrite Hth. destruct th as [pc res]. cbn in H0. subst pc. eexists. reflexivity.
+Qed.
